@@ -176,6 +176,12 @@ def emission_core(ix, R, pfx, site, ktab=False):
 
 
 def run(ix, R):
+    _run(ix, R)
+    from rules.common import memo_obligation
+    memo_obligation(ix, R, 'M.memo', ['taurex/model/emission.py', 'taurex/model/directimage.py', 'taurex/util/emission.py', 'taurex/data/stellar/star.py'], 'the emission path')
+
+
+def _run(ix, R):
     site = E + '::EmissionModel.evaluate_emission'
     ctx = None
     with R.guard('1', 'ARG', site, 'evaluate_emission structure'):
